@@ -692,8 +692,8 @@ def rule_N3(src, lo, hi, enabled):
                 rest = src[toks[amp + 1].start:toks[brace].start]
                 has_else = bc + 1 < n and toks[bc + 1].text == "else"
                 if not has_else and "&&" not in rest and "||" not in src[toks[i + 1].start:toks[amp].start]:
-                    cond = src[toks[i + 1].start:toks[amp].start].strip()
-                    out.append(("N3", toks[i].start, toks[brace].start, "if %s { if %s " % (cond, rest.strip())))
+                    # point edits only (the `&&` token and one closing brace), so that edits of other rules inside C and E survive
+                    out.append(("N3", toks[amp].start, toks[amp].end, "{ if"))
                     out.append(("N3", toks[bc].end, toks[bc].end, " }"))
                     i = brace + 1
                     continue
